@@ -169,3 +169,18 @@ prop('C14', 'custom integrals receive an exact signed decomposition of the cell'
   tb('data_alignment', 'zipData_mem', 'T14.4 zipping the unfiltered cell list with the data delivers data[i] to the cell with index i, for every mask'),
   tb('data_alignment_order', 'zipData_spec', 'T14.4 and in increasing index order'),
 ])
+FP = ('MVoro.Proofs.FacesProofs', 'MVoro.FacesProofs')
+def fp(name, orig, doc): return (name, FP[0], FP[1], orig, doc)
+TS = ('MVoro.Proofs.Misc', 'MVoro.TypeStateProofs')
+def ts(name, orig, doc): return (name, TS[0], TS[1], orig, doc)
+prop('C15', 'extracted vertices and face polygons form a valid convex polytope', ['MVoro.Proofs.FacesProofs', 'MVoro.Proofs.Misc', 'MVoro.Proofs.GeomHelpers'], [
+  gh('vertex_on_its_three_planes', 'intersectPlanes_on', 'T15.1 `Vertex::from_dual` = intersect_planes of the three listed planes lies on all three (exact arithmetic, det != 0)'),
+  fp('ordering_is_a_permutation', 'sortFaceVertices_perm', 'T15.2a whenever `sort_face_vertices` succeeds its result is a permutation of the vertices collected for the plane: no vertex is lost or duplicated by the ordering'),
+  fp('vertex_listed_per_occurrence', 'count_collected', 'T15.2b vertex i is collected under plane p exactly as often as p occurs in its dual triple'),
+  fp('distinct_planes_once_each', 'occ_distinct', 'T15.2b for three distinct planes: once under each of them, never under another plane'),
+  fp('every_vertex_in_three_faces', 'total_occ_three', 'T15.2c summed over all planes every vertex is listed exactly three times'),
+  ts('face_data_always_present', 'run_never_ub', 'T15.4 in every state reachable from `new` by with_faces / discard_faces / accessor operations the unchecked reads of the face data never hit None'),
+  ts('invariant_step', 'step_good', 'T15.4 one operation keeps the invariant "marker = WithFaces iff face data present"'),
+  ts('with_faces_rejected_low_dim', 'withFaces_rejected_lowdim', 'T15.4 with_faces on a 1D/2D cell is the error state (panic), never a cell with nonsense faces'),
+  ts('discard_then_with_faces_identity', 'discard_withFaces_id', 'T15.4 discard_faces followed by with_faces reproduces planes, vertices and (re-derived) faces'),
+])
